@@ -13,12 +13,6 @@ package cty
 //@   frame_only
 //@   writes cty.refinementNullable r
 //
-//@ func (*cty.RefinementBuilder).StringPrefixFull
-//@   tags C20
-//@   frame_only
-//@   ensures (= result b)
-//@   writes cty.refinementString (wip_str (b_wip b))
-//
 //@ func (*cty.listElementIterator).Next
 //@   tags C20
 //@   frame_only
